@@ -394,6 +394,38 @@ def run_case(case, history="plain"):
                              "to_proto of a parent instantiating both results raised: %s" % str(e)[-300:]))
     if m1.name != name1:
         out["fails"].append(("renamed_in_place_after_export", "module first returned as %r is now named %r" % (name1, m1.name)))
+    if pattern in ("direct", "uncached_both"):
+        # a generator that opted out of memoisation returns a new module per call; the two results of equal calls share a name.
+        # One of them is edited: a parent of both either is refused or holds both definitions - never one definition for the two
+        def own(params: w.P) -> h.Module:
+            m = h.Module()
+            m.add(h.Signal(name="x"))
+            return m
+        own.__name__ = "OwnBody"
+        V = h.generator(enable_cache=False)(own)
+        if True:
+            try:
+                va, vb = V(p1), V(p1)
+                if va is not vb:
+                    vb.add(h.Signal(name="extra"))
+                    top2 = h.Module(name="Top2")
+                    top2.add(va(), name="a")
+                    top2.add(vb(), name="b")
+                    try:
+                        pkg2 = h.to_proto(top2)
+                        t2 = [pm for pm in pkg2.modules if pm.name.endswith("Top2")][0]
+                        refs = [i.module.local for i in t2.instances]
+                        defs = {pm.name: sorted(sg.name for sg in pm.signals) for pm in pkg2.modules}
+                        if len(set(refs)) != 2 or sorted(map(tuple, (defs.get(r, []) for r in refs))) != [("extra", "x"), ("x",)]:
+                            out["fails"].append(("export_merges_distinct_modules", "two results of an un-memoised generator (one edited to hold a further signal) under one name: "
+                                                 "the exported parent refers to %s, defined with signals %s" % (refs, [defs.get(r) for r in refs])))
+                        out["notes"].append("uncached_twins_exported")
+                    except Exception:
+                        out["notes"].append("uncached_twins_refused")
+                else:
+                    out["notes"].append("uncached_generator_memoised")
+            except Exception as e:
+                out["notes"].append("uncached_own_raised:" + type(e).__name__)
     out["equal"] = equal
     out["rendered_equal"] = render(case["vals1"]) == render(case["vals2"])
     return out
